@@ -224,13 +224,16 @@ int main(int argc, char* const* argv)
     }
     char* script_str = nullptr;
     if (pipe_in) {
-        char buf[1024];
-        if (!fgets(buf, 1024, stdin)) {
+        char* line = nullptr;
+        size_t cap = 0;
+        ssize_t len = getline(&line, &cap, stdin);
+        if (len < 0) {
             fprintf(stderr, "warning: no input\n");
+            len = 0;
         }
-        int len = strlen(buf);
-        while (len > 0 && (buf[len-1] == '\n' || buf[len-1] == '\r')) buf[--len] = 0;
-        script_str = strdup(buf);
+        while (len > 0 && (line[len-1] == '\n' || line[len-1] == '\r')) --len;
+        script_str = strndup(line ? line : "", len);
+        free(line);
     } else if (ca.l.size() > 0) {
         script_str = strdup(ca.l[0]);
         ca.l.erase(ca.l.begin(), ca.l.begin() + 1);
